@@ -11,6 +11,7 @@ CONSTANTS
   Mutate = FALSE
   Dedup = TRUE
   Validate = FALSE
+  AllowUnrigged = FALSE
 SPECIFICATION Spec
 INVARIANTS L2NothingBadWritten
 CHECK_DEADLOCK FALSE
